@@ -59,6 +59,12 @@ CHECKS = {
  "C20": ("Coq proof (flatten lists every ID of the tree exactly once; the report is a permutation of it sorted by start time with ties by ID; refuted pre-repair ordering) + T2 through the real scipipe binary on generated trees + executing generated Bash scripts of real runs",
          "Theorems over all record trees (any depth, fan-in, sharing); the extracted model's order is compared with the (process, ID) sequence parsed from audit2html / audit2tex / audit2bash output of the real CLI on generated trees with ties and zero times, and generated scripts of real workflows are executed and must re-create the file byte-identically.",
          "7 C20", ""),
+ "C10": ("Coq proof (fields of the record a successful task stores on each output; incremental provenance over any history = recursive lineage; tag propagation from the AddTag semantics; refutation witness for sub-stream member tags) + T1 conformance of writeAuditLogs / tag accessors / NewFileIP / MapToTags + T3 comparison of every audit file with the model's lineage tree",
+         "Theorems over all processes, worlds and histories of the audit model; every <path>.audit.json of real runs (multi-input/output, parameters, tagging component, sub-streams, sibling outputs) is parsed and compared recursively, without IDs and times, with the lineage computed by the Coq reference evaluator, plus direct monitors (valid JSON, times, OutFiles, tags of upstream records).",
+         "7 C10", "Sub-stream member tags are a recorded finding (D13)."),
+ "C11": ("Coq proof (resumed histories keep records; lineage independent of execution order for well-ordered histories; token-level JSON round trip for every record tree; escape round trip for every ASCII string) + T1 conformance + T3 histories (RunTo then Run; kill at hook points or inside a write(2) to an audit file via strace fault injection, cleanup, re-run; delete downstream outputs and re-run) + T2 of the JSON model against encoding/json",
+         "Order independence and the round trips are theorems; the byte-level composition (lexer on the MarshalIndent layout) is partial and validated against Go's encoder/decoder on generated trees on every run; resumed histories on the real library must reproduce the uninterrupted lineage exactly.",
+         "7 C11", "The bytes-level round trip is proved for tokens and strings separately, not for their composition."),
  "C12": ("Coq proof of lockset soundness over acquire/release/access traces + computed lock-discipline obligations on the skeletons regenerated from the source (tags map, audit record pointer, remote-port maps, slot deposit loop) + race-detector runs as the search for failing inputs",
          "Partial by nature: a data race is a property of the Go memory model. Proved: two accesses made under a common mutex are ordered by happens-before in every valid trace; computed on every run: all modelled accesses to the shared audit record and port maps hold the owning mutex, and task / process / tagging code touches the tags only through the guarded accessors. Fan-out / fan-in / multi-core / tagging workflows built with -race supply failing inputs (exit 66).",
          "7 C12", "Not covered by any theorem: completeness of the access enumeration (aliasing), channel hand-offs, logging, the runtime's own synchronisation."),
